@@ -243,6 +243,41 @@ Definition run_line (m : mode) (line : list N) : list N :=
             join (s2l " ; ") (run_live_ops p m (sync_connect_ctx p slave tmo) (split_ops ops [])) ++ s2l " ; timing_ok=1"
         | _, _ => err "live"
         end
+      else if is h "SURVIVE" then
+        (* connections established before another connection's setup fails (serve returns the error) or is rejected:
+           every connection is its own machine -- it goes on serving whatever the accept loop does afterwards.
+           plan = conn|conn.., conn = first/second/svc1/svc2 *)
+        match parse_proto pr, rest with
+        | Some p, [e; plan] =>
+            let endev := match e with
+                         | 101 :: 58 :: k => option_map (fun k => AConn (SetupErr k)) (parse_kind k)
+                         | [114] => Some (AConn SetupReject)
+                         | _ => None end in
+            let conns := opt_all (map (fun c : list N =>
+                           match split 47 c with
+                           | [f1; f2; s1; s2] =>
+                               match parse_hex f1, parse_hex f2, parse_svc s1, parse_svc s2 with
+                               | Some a, Some b, Some x, Some y => Some ([RData a; RData b], [x; y])
+                               | _, _, _, _ => None end
+                           | _ => None end) (split 124 plan)) in
+            match endev, conns with
+            | Some ev, Some cs =>
+                let '(served, r) := serve (map (fun c => AConn (SetupService (fst c))) cs ++ [ev]) in
+                let wr (t : list tev) := flat_map (fun x => match x with TWrote b => [b] | _ => [] end) t in
+                s2l "serve=" ++
+                match r with
+                | SrvErr k => s2l "E:" ++ show_kind k
+                | SrvAborted => s2l "ABORTED"
+                | SrvListening => s2l "LISTENING"
+                end ++
+                flat_map (fun qc : list revt * (list revt * list svc_reply) =>
+                            let ws := wr (serve_conn p m (fst qc) [] [] (snd (snd qc))) in
+                            s2l " | first=" ++ show_hex (nth 0 ws []) ++ s2l " second=" ++ show_hex (nth 1 ws []))
+                         (combine served cs)
+            | _, _ => err "surviveargs"
+            end
+        | _, _ => err "survive"
+        end
       else if is h "ACCEPT" then
         match parse_proto pr, rest with
         | Some p, [g; b; evs] =>
